@@ -1,6 +1,7 @@
 """C08 (a broken or garbled server stream fails client calls; it never hangs them): configuration and engine."""
 import hashlib
 import os
+import re
 import subprocess
 
 import atp_engine as ae
@@ -22,6 +23,12 @@ def direct_fault_final(session, final):
         return "Close never returned (left: %s)" % " ".join(left)
     if close == "panic":
         return "Close panicked"
+    # never success for a run whose work-done message did not arrive intact: the scripted peer has no intact work-done
+    # message for this run at all (its terminal message is an error or a malformed / data-less work-done message)
+    for run, cls, n in res:
+        if cls == "ok" and ('(pm "%s" done)' % run) not in session:
+            return ("Execute for run %r reports SUCCESS although the peer never sends an intact work-done message for that run "
+                    "(its script: %s)" % (run, " ".join(re.findall(r'\(pm "%s" (\w+)\)' % re.escape(run), session))))
     return None
 
 
@@ -42,14 +49,61 @@ def d25_class(session, final):
     return "(wfail -1)" not in session and "(close panic)" in final
 
 
-def sweep_check(tr, kind, k, obs):
+def flip_check(tr, kind, k, obs, ref):
+    """Single-byte corruption (bit `kind[4]` of byte k inverted, the message delivered to its end, then EOF): the result of
+    every call has to be what the reference decoding of the corrupted transcript gives (atpdrive/fault_ref.go: fxamacker/cbor
+    with the client's decoding options + the client's protocol rules): an error wherever no intact answer can be decoded,
+    success where the decoded work-done message equals the one the server sent; where the corruption leaves ANOTHER valid
+    message (class othervalid / exec any) only `returns, no panic` is demanded."""
+    schema = ae.split_top(ae.field(obs, "schema"))[1]
+    execs = ae.split_top(ae.field(obs, "exec"))[1:]
+    close = ae.split_top(ae.field(obs, "close"))[1]
+    rschema = ae.split_top(ae.field(ref, "schema"))[1]
+    rexec = ae.split_top(ae.field(ref, "exec"))[1:]
+    rclass = ae.split_top(ae.field(ref, "class"))[1:]
+    what = "bit %s of byte %d inverted (message ends at %s)" % (kind[4:], k, next((e for e in tr["ends"] if k < e), "-"))
+    if schema == "hang":
+        return "ReadSchema hangs (%s)" % what
+    if schema == "panic" or rschema == "panic":
+        return "ReadSchema panics on a corrupted hello message (%s)" % what
+    if schema != rschema:
+        return ("ReadSchema %s although the strict reference decoding of the corrupted hello message (same decoding options, "
+                "version check, schema.UnserializeSchema) %s it (%s)" % (
+                    "succeeded" if schema == "ok" else "failed", "rejects" if rschema == "err" else "accepts", what))
+    if schema != "ok":
+        return None
+    for i, e in enumerate(execs):
+        x, cl = rexec[i], rclass[i]
+        if e == "hang":
+            return "Execute #%d hangs (%s)" % (i, what)
+        if e not in ("ok", "err"):
+            return "Execute #%d: unexpected outcome %s (%s)" % (i, e, what)
+        if x == "err" and e == "ok":
+            return ("Execute #%d reports success although no intact work-done message for its run can be decoded from the "
+                    "corrupted stream - the reference decoder (the client's own decoding options) gives an error, class %s (%s)"
+                    % (i, cl, what))
+        if x == "ok" and cl in ("before", "intact") and e != "ok":
+            return ("Execute #%d fails although its work-done message %s (%s)" % (
+                i, "arrived intact before the corruption" if cl == "before" else "still decodes to exactly what the server sent", what))
+    if close in ("hang", "panic"):
+        return "Close %ss (%s)" % (close, what)
+    return None
+
+
+def sweep_check(tr, kind, k, obs, ref=None):
     """Direct predicate for one byte-offset case.  tr = dict(ends, okmsg, conc, ver)."""
+    if kind.startswith("flip"):
+        if ref is None:
+            return "the sweep line of a corruption case carries no reference decoding"
+        return flip_check(tr, kind, k, obs, ref)
     schema = ae.split_top(ae.field(obs, "schema"))[1]
     execs = ae.split_top(ae.field(obs, "exec"))[1:]
     close = ae.split_top(ae.field(obs, "close"))[1]
     hello_end = tr["ends"][0]
     if schema == "hang":
         return "ReadSchema hangs"
+    if schema == "panic":
+        return "ReadSchema panics (fault %s at byte %d)" % (kind, k)
     if tr.get("badhello"):
         # the hello message carries an unsupported version / a schema that does not unserialize: whether it arrives
         # intact or is cut / garbled at byte k, ReadSchema has to return an error (no success, no panic, no hang)
@@ -144,6 +198,7 @@ def engine_c08(prop, tier, seed, work, known):
                                              env=check.GOENV, stdout=subprocess.DEVNULL, stderr=subprocess.PIPE)))
     nsweep = 0
     per = {}
+    flipcls = {}
     for outp, pr in procs:
         try:
             _, err = pr.communicate(timeout=2400)
@@ -167,17 +222,30 @@ def engine_c08(prop, tier, seed, work, known):
                              "line": line}
                 continue
             name, kind, k, o = e[1], e[2], int(e[3]), e[4]
+            ref = e[5] if len(e) > 5 else None
             nsweep += 1
-            per[(name, kind)] = per.get((name, kind), 0) + 1
-            why = sweep_check(trs[name], kind, k, o)
+            pk = "flip" if kind.startswith("flip") else kind
+            per[(name, pk)] = per.get((name, pk), 0) + 1
+            if ref is not None:
+                # how the reference decoder classified the corruption (evidence: the oracle is not constant)
+                for cl in ae.split_top(ae.field(ref, "class"))[1:]:
+                    flipcls[cl] = flipcls.get(cl, 0) + 1
+                rs = "hello-" + ae.split_top(ae.field(ref, "schema"))[1]
+                if k < trs[name]["ends"][0]:
+                    flipcls[rs] = flipcls.get(rs, 0) + 1
+            why = sweep_check(trs[name], kind, k, o, ref)
             if why:
-                res["violations"].append(("atpsweep", "(sweep %s %s %d %s)" % (name, kind, k, trs[name]["line"]), o, "-", why))
+                res["violations"].append(("atpsweep", "(sweep %s %s %d %s)" % (name, kind, k, trs[name]["line"]), o, ref or "-", why))
     res["evaluations"] += nsweep
     res["distinct_nontrivial"] += nsweep
     res["stats"] = {"gates": gates, "fault_sessions_replayed": len(items), "fault_kinds": {str(k): v for k, v in sorted(kinds.items(), key=str)},
                     "schedules_past_a_lost_read_ahead_checked_by_the_direct_predicate_only": n_lost,
                     "byte_offset_cases": nsweep, "byte_offset_cases_per_transcript_and_kind": {"%s/%s" % k: v for k, v in sorted(per.items())},
-                    "rule": "message-level: distinct (session, schedule); byte-level: every offset of every transcript x {eof, readerr, garbage}"}
+                    "single_byte_corruptions_by_reference_class": dict(sorted(flipcls.items())),
+                    "rule": "message-level: distinct (session, schedule); byte-level: every offset of every transcript x {eof, readerr, garbage}; "
+                            "single-bit corruption at every offset of the runtime messages (8 bits) and of two hello messages (3 of 8 bits, "
+                            "rotating), classified by the strict reference decoder: detected / othererr / eof = the call must fail, "
+                            "before / intact = it must succeed, othervalid = another valid message (outside the property)"}
     return res
 
 
@@ -194,7 +262,7 @@ def replay_atpsweep(d, work):
           "okmsg": [int(x) for x in ae.split_top(ae.field(lines[0], "okmsg"))[1:]],
           "badhello": ae.field(lines[0], "badhello") == "(badhello 1)"}
     f = ae.split_top(lines[1])
-    why = sweep_check(tr, f[2], int(f[3]), f[4])
+    why = sweep_check(tr, f[2], int(f[3]), f[4], f[5] if len(f) > 5 else None)
     if why:
         check.log("VIOLATION property=C08: " + why)
         return 1
@@ -218,9 +286,17 @@ C08 = {
             "failing step, 3 concurrent runs) and synthesised in the v1 framing (1 and 2 runs) are replayed free-running to the real "
             "client with the fault at EVERY byte offset x {EOF, read error, garbage}; four hello messages that must be refused "
             "(versions 2 and 9, a schema that does not unserialize, a nil schema) arrive intact and cut/garbled at every byte offset: "
-            "ReadSchema has to return an error; hang = quiescence of all goroutines, confirmed after pauses.",
+            "ReadSchema has to return an error; hang = quiescence of all goroutines, confirmed after pauses. (3) byte CORRUPTION: one bit "
+            "inverted at every offset of every runtime / work-done message of the five transcripts (all 8 bits) and of a v3 and a v1 hello "
+            "message (quick: 3 of 8 bits per offset), the corrupted message delivered to its end, then EOF; the verdict of every call is "
+            "compared with a reference: the corrupted transcript decoded in the harness by fxamacker/cbor with the client's own options "
+            "(stream items strict: unknown field = error; payloads with the default options) and the client's protocol rules - a call "
+            "may succeed only through a work-done message for its run id that still decodes, and must succeed when what decodes is "
+            "exactly what the server sent.",
     "assumptions": ["byte corruption that still decodes to a different well-formed message is indistinguishable from a lying peer and is "
-                    "outside the property; 'garbage' = bytes that are not a CBOR item, followed by the end of the stream",
+                    "outside the property; 'garbage' = bytes that are not a CBOR item, followed by the end of the stream; which "
+                    "single-byte corruptions are of that kind is decided per case by the reference decoder (class othervalid, counted in "
+                    "the evidence), not assumed",
                     "a fault is sticky: once the stream has failed every later read fails too",
                     "read-ahead is modelled as whole items: when a read loop ends while its decoder still holds read-ahead (only after a "
                     "misbehaving peer kept sending for runs the client had already failed) the model drops items, the real decoder on "
